@@ -25,6 +25,24 @@ impl<T> Frame<T> {
             _ => None,
         }
     }
+    pub fn trailers() -> Self {
+        Frame::Trailers
+    }
+    pub fn data_mut(&mut self) -> Option<&mut T> {
+        match self {
+            Frame::Data(d) => Some(d),
+            _ => None,
+        }
+    }
+    pub fn map_data<F, D>(self, f: F) -> Frame<D>
+    where
+        F: FnOnce(T) -> D,
+    {
+        match self {
+            Frame::Data(d) => Frame::Data(f(d)),
+            Frame::Trailers => Frame::Trailers,
+        }
+    }
     pub fn into_data(self) -> Result<T, Self> {
         match self {
             Frame::Data(d) => Ok(d),
@@ -37,4 +55,31 @@ pub trait Body {
     type Data: Buf;
     type Error;
     fn next_frame(&mut self) -> Option<Result<Frame<Self::Data>, Self::Error>>;
+}
+
+impl<T: Body + ?Sized> Body for &mut T {
+    type Data = T::Data;
+    type Error = T::Error;
+    fn next_frame(&mut self) -> Option<Result<Frame<Self::Data>, Self::Error>> {
+        (**self).next_frame()
+    }
+}
+impl<T: Body + ?Sized> Body for Box<T> {
+    type Data = T::Data;
+    type Error = T::Error;
+    fn next_frame(&mut self) -> Option<Result<Frame<Self::Data>, Self::Error>> {
+        (**self).next_frame()
+    }
+}
+impl<P> Body for std::pin::Pin<P>
+where
+    P: std::ops::DerefMut + Unpin,
+    P::Target: Body,
+{
+    type Data = <P::Target as Body>::Data;
+    type Error = <P::Target as Body>::Error;
+    fn next_frame(&mut self) -> Option<Result<Frame<Self::Data>, Self::Error>> {
+        // the shim bodies are plain data: nothing is self-referential, and `next_frame` does not move out
+        unsafe { self.as_mut().get_unchecked_mut() }.next_frame()
+    }
 }
